@@ -553,6 +553,8 @@ func run(c *runner.Ctx) {
 	// named family
 	c.Space(pfx + "named")
 	markerLookAlikes(c)
+	twoTagNames(c)
+	c.Space(pfx + "named")
 	for i, cs := range namedCases() {
 		if !c.Take() {
 			continue
@@ -921,4 +923,79 @@ func main() {
 		Run:         run,
 		Modes:       []runner.Mode{{Name: "plain"}, {Name: "lru1", Workers: 6}},
 	})
+}
+
+// TL / TwoTags (round 14): two tag names that mark different fields of one type.
+type TL struct {
+	V string `valid:"required" alt:"required|alt-v"`
+	W int    `valid:"le=3" alt:"ge=100|alt-w"`
+}
+
+type TwoTags struct {
+	A *TL           `valid:"exist"`
+	B *TL           `alt:"exist"`
+	C []TL          `valid:"required" alt:"required"`
+	D map[string]TL `alt:"required"`
+	E [1]*TL        `valid:"exist"`
+}
+
+// twoTagNames: every 3-call history over {default tag, "valid" given explicitly, "alt"} on one object: each call reaches
+// exactly the sub-objects marked under the tag name it asked for.
+func twoTagNames(c *runner.Ctx) {
+	c.Space("markers-under-two-tag-names")
+	bad := TL{V: "", W: 9}
+	mk := func(k int) *TwoTags {
+		t := &TwoTags{A: &TL{V: "", W: 9}, B: &TL{V: "", W: 9}, C: []TL{bad, {V: "x", W: 1}}, D: map[string]TL{"k": bad}, E: [1]*TL{{V: "", W: 200}}}
+		switch k {
+		case 1:
+			t.A, t.C = nil, nil
+		case 2:
+			t.B, t.D = nil, nil
+		}
+		return t
+	}
+	call := func(tag string, v interface{}) error {
+		switch tag {
+		case "":
+			return valid.Struct(v)
+		default:
+			return valid.ValidateStruct(v, tag)
+		}
+	}
+	tags := []string{"", "valid", "alt"}
+	for k := 0; k < 3; k++ {
+		for a := range tags {
+			for b := range tags {
+				for d := range tags {
+					if !c.Take() {
+						continue
+					}
+					for step, ti := range []int{a, b, d} {
+						v := mk(k)
+						var err error
+						pan, msg, site := runner.Guard(func() { err = call(tags[ti], v) })
+						got := "<nil>"
+						if err != nil {
+							got = err.Error()
+						}
+						want := walk.Struct(v, walk.Opts{Tag: tags[ti]}).Error()
+						if want == "" {
+							want = "<nil>"
+						}
+						det := map[string]interface{}{"history": []string{tags[a], tags[b], tags[d]}, "step": step, "object": k, "expected": want, "actual": got}
+						if pan {
+							det["panic"] = msg
+							c.Violation("panic@"+site, det)
+							break
+						}
+						if got != want {
+							c.Violation("two-tag-names/sub-objects-of-the-other-tag-name-reached-or-missed", det)
+							break
+						}
+					}
+					c.Done(true, 3)
+				}
+			}
+		}
+	}
 }
